@@ -46,7 +46,7 @@ CHECKS.update({
         "engine": "spec",
         "text": "The 488.2 status byte composition and the common commands are specified in ScpiStatus; TLC checks the STB shape invariants and emits every (state, command, mav) edge of the summary projections (all 32 SRE subsets of bits 2,3,4,5,7 x ESB x queue x register summary x MAV), each executed on the real device; out-of-range *ESE/*SRE writes and random full-width histories are validated as traces.",
         "design_ref": "DESIGN.md 3 C16",
-        "note": "STB bits 3/7 are required only where condition&enable and event&enable agree (488.2 vs the library's documented reading; the property does not choose). *OPC may or may not queue -800.",
+        "note": "STB bits 3/7 are required only where condition&enable and event&enable agree (488.2 vs the library's documented reading; the property does not choose).",
         "technique": "TLA+ model checking (TLC) + edge replay into the implementation + trace validation",
     },
 })
